@@ -17,6 +17,7 @@ struct mock_cam_cfg {
     long fail_at;         /* get_frame fails when asked for this hardware id (-1: never); one-shot per start */
     int start_fails;      /* next start fails */
     int pace;             /* extra scheduling points inside get_frame */
+    int reject_sets;      /* the next so many set calls are refused by the device (Device_Err, nothing changes) */
 };
 struct mock_sto_cfg {
     long fail_at;         /* the k-th append (0-based, counted per start) returns a non-Running state (-1: never) */
